@@ -152,4 +152,133 @@ Section Jacobian.
       f_equal; (apply feq_eq; [apply fmul_range | apply fsub_range |]);
         subst u1 u2 s1 s2 x1 x2 y1 y2 zi1 zi2; field; repeat split; assumption.
   Qed.
+
+  (* ---- closure of the chord-tangent addition (needs only that F_p is a field) *)
+  Lemma on_curve_intro x y : in_field x = true -> in_field y = true ->
+    feq (fmul y y) (fadd (fmul (fmul x x) x) 7) -> on_curve (Aff x y) = true.
+  Proof.
+    intros Hx Hy H. cbn [on_curve]. rewrite Hx, Hy. cbn [andb]. apply Z.eqb_eq.
+    apply feq_eq; [apply fmul_range|apply fadd_range|exact H].
+  Qed.
+
+  Lemma padd_closed P Q : on_curve P = true -> on_curve Q = true -> on_curve (padd P Q) = true.
+  Proof.
+    destruct P as [|x1 y1]; [intros _ H; exact H|].
+    destruct Q as [|x2 y2]; [intros H _; exact H|].
+    intros O1 O2. pose proof O1 as O1'. pose proof O2 as O2'.
+    apply on_curve_inv in O1 as (Fx1 & Fy1 & Cv1). apply on_curve_inv in O2 as (Fx2 & Fy2 & Cv2).
+    assert (B : feq 7 (fsub (fmul y1 y1) (fmul (fmul x1 x1) x1))) by (rewrite Cv1; ring).
+    unfold padd. destruct (x1 =? x2) eqn:EX.
+    - destruct (fadd y1 y2 =? 0) eqn:EY; [reflexivity|].
+      apply Z.eqb_eq in EX. subst x2.
+      assert (Sq : feq (fmul y1 y1) (fmul y2 y2)) by (rewrite Cv1, Cv2; reflexivity).
+      apply (fsquare_eq prime_p) in Sq.
+      assert (NY : ~ feq (fadd y1 y2) 0) by (apply nz; [apply fadd_range|exact EY]).
+      destruct Sq as [Sq|Sq]; [|exfalso; apply NY; rewrite Sq; ring].
+      assert (Ny1 : ~ feq y1 0).
+      { intros E. apply NY. rewrite <- Sq, E. ring. }
+      cbv zeta. apply on_curve_intro; [apply fsub_range|apply fsub_range|].
+      rewrite B. unfold fdiv. field. split; [exact Ny1|exact two_nonzero].
+    - assert (NX : ~ feq x1 x2) by (apply eqb_false_nfeq; assumption).
+      assert (ND : ~ feq (fsub x2 x1) 0).
+      { intros E. apply NX. assert (E1 : feq x1 (fsub x2 (fsub x2 x1))) by ring. rewrite E1, E. ring. }
+      cbv zeta. apply on_curve_intro; [apply fsub_range|apply fsub_range|].
+      assert (R0 : feq (fsub (fsub (fmul y2 y2) (fmul y1 y1)) (fsub (fmul (fmul x2 x2) x2) (fmul (fmul x1 x1) x1))) 0).
+      { rewrite Cv1, Cv2. ring. }
+      set (l := fdiv (fsub y2 y1) (fsub x2 x1)).
+      set (x3 := fsub (fsub (fmul l l) x1) x2).
+      set (y3 := fsub (fmul l (fsub x1 x3)) y1).
+      assert (K : feq (fsub (fmul y3 y3) (fadd (fmul (fmul x3 x3) x3) (fsub (fmul y1 y1) (fmul (fmul x1 x1) x1))))
+                      (fmul (fsub (fsub (fmul y2 y2) (fmul y1 y1)) (fsub (fmul (fmul x2 x2) x2) (fmul (fmul x1 x1) x1)))
+                            (fdiv (fsub x3 x1) (fsub x2 x1)))).
+      { subst y3 x3 l. unfold fdiv. field. exact ND. }
+      rewrite R0 in K. rewrite B.
+      assert (E : feq (fmul y3 y3) (fadd (fsub (fmul y3 y3) (fadd (fmul (fmul x3 x3) x3) (fsub (fmul y1 y1) (fmul (fmul x1 x1) x1))))
+                                       (fadd (fmul (fmul x3 x3) x3) (fsub (fmul y1 y1) (fmul (fmul x1 x1) x1))))) by ring.
+      rewrite E, K. ring.
+  Qed.
+
+  (* ---- scalar multiplication *)
+  Lemma smul_pos_closed k : forall P, on_curve P = true -> on_curve (smul_pos k P) = true.
+  Proof.
+    induction k as [k IH|k IH|]; intros P OP; cbn [smul_pos].
+    - apply padd_closed; [exact OP|]. apply IH. apply padd_closed; exact OP.
+    - apply IH. apply padd_closed; exact OP.
+    - exact OP.
+  Qed.
+
+  Lemma pneg_closed P : on_curve P = true -> on_curve (pneg P) = true.
+  Proof.
+    destruct P as [|x y]; [trivial|]. intros O. apply on_curve_inv in O as (Fx & Fy & Cv).
+    cbn [pneg]. apply on_curve_intro; [exact Fx|apply fneg_range|]. rewrite <- Cv. ring.
+  Qed.
+
+  Lemma smul_closed k P : on_curve P = true -> on_curve (smul k P) = true.
+  Proof.
+    intros O. destruct k as [|k|k]; cbn [smul]; [reflexivity|apply smul_pos_closed, O|].
+    apply pneg_closed, smul_pos_closed, O.
+  Qed.
+
+  Lemma jsmul_pos_correct k : forall J,
+    jcanon J = true -> on_curve (of_j J) = true ->
+    jcanon (jsmul_pos k J) = true /\ of_j (jsmul_pos k J) = smul_pos k (of_j J).
+  Proof.
+    induction k as [k IH|k IH|]; intros J C O; cbn [jsmul_pos smul_pos].
+    - assert (Od : on_curve (of_j (jdouble J)) = true) by (rewrite jdouble_correct by exact C; apply padd_closed; exact O).
+      destruct (IH (jdouble J) (jdouble_canon J) Od) as [C2 E2].
+      split; [apply jadd_canon; assumption|].
+      rewrite jadd_correct; try assumption.
+      + rewrite E2, jdouble_correct by exact C. reflexivity.
+      + rewrite E2, jdouble_correct by exact C. clear IH E2.
+        apply smul_pos_closed. apply padd_closed; exact O.
+    - assert (Od : on_curve (of_j (jdouble J)) = true) by (rewrite jdouble_correct by exact C; apply padd_closed; exact O).
+      destruct (IH (jdouble J) (jdouble_canon J) Od) as [C2 E2].
+      split; [exact C2|]. rewrite E2, jdouble_correct by exact C. reflexivity.
+    - split; [exact C|reflexivity].
+  Qed.
+
+  Lemma of_j_to_j P : on_curve P = true -> of_j (to_j P) = P.
+  Proof.
+    destruct P as [|x y]; [reflexivity|]. intros O. apply on_curve_inv in O as (Fx & Fy & _).
+    cbn [to_j]. unfold of_j. change (1 =? 0) with false. cbv iota.
+    assert (E1 : finv 1 = 1).
+    { apply feq_eq; [|reflexivity|].
+      - unfold finv. destruct (modinv 1 p) as [v|] eqn:E; [|reflexivity].
+        apply modinv_sound in E; [|reflexivity]. unfold in_field. lia.
+      - pose proof (finv_l prime_p 1 ltac:(apply small_nonzero; split; reflexivity)) as H.
+        transitivity (fmul (finv 1) 1); [ring|exact H]. }
+    rewrite E1. f_equal; (apply feq_eq; [apply fmul_range|assumption|ring]).
+  Qed.
+
+  (* jacobian_correct: the executed scalar multiplication is the affine double-and-add *)
+  Theorem smulx_correct k P : on_curve P = true -> smulx k P = smul k P.
+  Proof.
+    intros O. destruct k as [|k|k]; cbn [smulx smul]; [reflexivity| |];
+      destruct (jsmul_pos_correct k (to_j P) (to_j_canon P O)) as [_ E];
+      try (rewrite of_j_to_j; exact O); rewrite E, of_j_to_j by exact O; reflexivity.
+  Qed.
+
+  Theorem lincomb_correct a P b Q : on_curve P = true -> on_curve Q = true ->
+    lincomb a P b Q = padd (smul a P) (smul b Q).
+  Proof.
+    intros OP OQ.
+    assert (JP : forall k, jcanon (jsmul_pos k (to_j P)) = true /\ of_j (jsmul_pos k (to_j P)) = smul_pos k P).
+    { intros k. destruct (jsmul_pos_correct k (to_j P) (to_j_canon P OP)) as [C E]; [rewrite of_j_to_j; exact OP|].
+      rewrite of_j_to_j in E by exact OP. auto. }
+    assert (JQ : forall k, jcanon (jsmul_pos k (to_j Q)) = true /\ of_j (jsmul_pos k (to_j Q)) = smul_pos k Q).
+    { intros k. destruct (jsmul_pos_correct k (to_j Q) (to_j_canon Q OQ)) as [C E]; [rewrite of_j_to_j; exact OQ|].
+      rewrite of_j_to_j in E by exact OQ. auto. }
+    unfold lincomb.
+    destruct a as [|a|a]; destruct b as [|b|b];
+      try (rewrite !smulx_correct by assumption; reflexivity).
+    - reflexivity.
+    - destruct (JQ b) as [C E]. rewrite jadd_correct; [rewrite E; reflexivity|reflexivity|exact C|reflexivity|].
+      rewrite E. apply smul_pos_closed, OQ.
+    - destruct (JP a) as [C E]. rewrite jadd_correct; [rewrite E; reflexivity|exact C|reflexivity| |reflexivity].
+      rewrite E. apply smul_pos_closed, OP.
+    - destruct (JP a) as [C1 E1]. destruct (JQ b) as [C2 E2].
+      rewrite jadd_correct; [rewrite E1, E2; reflexivity|exact C1|exact C2| |].
+      + rewrite E1. apply smul_pos_closed, OP.
+      + rewrite E2. apply smul_pos_closed, OQ.
+  Qed.
 End Jacobian.
